@@ -7,7 +7,7 @@
 //!  * level "inner": the private `CausalOrderer` (`orderer/orderer.rs`, source-included) driven
 //!    with small integer ids inside transactions exactly as `Orderer::process` / `next` do.
 //! Oracle: a set-based reference ("released = least fixpoint of delivered and deps ⊆ released").
-use std::collections::{BTreeMap, BTreeSet};
+use std::collections::{BTreeMap, BTreeSet, HashMap};
 use std::time::Duration;
 
 use explorer::{catch, dfs_par, json, Chooser, DfsCfg, Report, Value};
@@ -198,6 +198,8 @@ struct Part {
     n_max: usize,
     alpha: Alphabet,
     dups: bool,
+    /// enumerate both drain policies (else only "after every delivery")
+    both_drains: bool,
 }
 
 fn pick_case(ch: &Chooser, part: &Part) -> Case {
@@ -211,7 +213,7 @@ fn pick_case(ch: &Chooser, part: &Part) -> Case {
     }
     let ds = deliveries(n, part.dups);
     let delivery = ds[ch.choose_free(ds.len(), "delivery")].clone();
-    let drain_each = ch.choose_free(2, "drain") == 0;
+    let drain_each = !part.both_drains || ch.choose_free(2, "drain") == 0;
     Case {
         level: part.level,
         n,
@@ -333,8 +335,6 @@ async fn run_processor_level(store: &SqliteStore, case: &Case) -> Result<Vec<Ev>
 struct CaseResult {
     case: Case,
     evs: Result<Vec<Ev>, String>,
-    /// events of the same case with de-duplicated dependency lists (only if a list repeats an entry)
-    dedup_evs: Option<Result<Vec<Ev>, String>>,
 }
 
 fn exec_case(case: &Case) -> CaseResult {
@@ -342,35 +342,24 @@ fn exec_case(case: &Case) -> CaseResult {
     let store = ctx.store();
     let r = catch(|| {
         ctx.rt.block_on(async {
-            let one = async |c: &Case| -> Result<Vec<Ev>, String> {
-                wipe(&store).await?;
-                if c.level == "processor" {
-                    run_processor_level(&store, c).await
-                } else {
-                    run_inner_level(&store, c).await
-                }
-            };
-            let evs = one(case).await;
-            let dedup_evs = if case.has_repeat() && evs.is_ok() { Some(one(&case.dedup()).await) } else { None };
-            (evs, dedup_evs)
+            wipe(&store).await?;
+            if case.level == "processor" {
+                run_processor_level(&store, case).await
+            } else {
+                run_inner_level(&store, case).await
+            }
         })
     });
     match r {
-        Ok((evs, dedup_evs)) => {
-            let clean = evs.is_ok() && dedup_evs.as_ref().map(|d| d.is_ok()).unwrap_or(true);
-            ctx.give_back(clean);
-            CaseResult {
-                case: case.clone(),
-                evs,
-                dedup_evs,
-            }
+        Ok(evs) => {
+            ctx.give_back(evs.is_ok());
+            CaseResult { case: case.clone(), evs }
         }
         Err(p) => {
             ctx.give_back(false);
             CaseResult {
                 case: case.clone(),
                 evs: Err(format!("panic: {p}")),
-                dedup_evs: None,
             }
         }
     }
@@ -398,8 +387,9 @@ fn close(lists: &[Vec<u8>], delivered: &BTreeSet<usize>, released: &mut BTreeSet
 
 struct Judged {
     violations: Vec<(String, String)>,
-    /// some delivery found the item blocked (a dependency not yet released or never arriving)
-    blocked_at_delivery: bool,
+    /// some item was blocked at its first delivery (a dependency not yet ready) and became ready
+    /// later, i.e. it had to travel through the pending table
+    unblocked_later: bool,
     final_released: BTreeSet<usize>,
     states: Vec<(BTreeSet<usize>, BTreeSet<usize>)>,
 }
@@ -413,19 +403,19 @@ fn judge_events(case: &Case, evs: &[Ev]) -> Judged {
     let mut deps_ready_at_delivery: BTreeMap<usize, bool> = BTreeMap::new();
     let mut out = Judged {
         violations: vec![],
-        blocked_at_delivery: false,
+        unblocked_later: false,
         final_released: BTreeSet::new(),
         states: vec![],
     };
     for ev in evs {
         match ev {
             Ev::Deliver(i) => {
-                let ready = lists[*i].iter().all(|d| *d != M && real.contains(&(*d as usize)));
-                if !ready {
-                    out.blocked_at_delivery = true;
-                }
-                deps_ready_at_delivery.insert(*i, ready);
+                // "ready" in the reference model = delivered with all distinct dependencies ready
+                // (whether or not `next` has handed it out yet)
+                let ready = lists[*i].iter().all(|d| *d != M && model.contains(&(*d as usize)));
+                deps_ready_at_delivery.entry(*i).or_insert(ready);
                 delivered.insert(*i);
+                close(lists, &delivered, &mut model);
             }
             Ev::Release(Err(raw)) => out.violations.push((
                 "released-unknown-id".into(),
@@ -461,9 +451,9 @@ fn judge_events(case: &Case, evs: &[Ev]) -> Judged {
                     }
                     let class = if list_has_repeat(&lists[*y]) { "repeated-dependency-entry" } else { "distinct-dependency-entries" };
                     let timing = if deps_ready_at_delivery.get(y).copied().unwrap_or(false) {
-                        "dependencies-released-before-delivery"
+                        "dependencies-ready-before-delivery"
                     } else {
-                        "dependencies-released-after-delivery"
+                        "dependencies-ready-after-delivery"
                     };
                     out.violations.push((
                         format!("ready-item-never-released/{class}/{timing}"),
@@ -476,11 +466,12 @@ fn judge_events(case: &Case, evs: &[Ev]) -> Judged {
             }
         }
     }
+    out.unblocked_later = model.iter().any(|y| deps_ready_at_delivery.get(y) == Some(&false));
     out.final_released = real;
     out
 }
 
-fn judge(rep: &mut Report, r: &CaseResult) {
+fn judge(rep: &mut Report, r: &CaseResult) -> Option<BTreeSet<usize>> {
     let case = &r.case;
     let evs = match &r.evs {
         Ok(e) => e,
@@ -488,45 +479,26 @@ fn judge(rep: &mut Report, r: &CaseResult) {
             let class = if e.starts_with("panic") { "panic" } else { "error" };
             let short: String = e.chars().take(50).collect::<String>().replace(' ', "-");
             rep.violation(format!("{class}/{short}"), format!("{e}; {}", case.describe()), case.to_json());
-            return;
+            return None;
         }
     };
     let j = judge_events(case, evs);
     for (key, what) in &j.violations {
         rep.violation(key.clone(), format!("{what}; {}; observed {:?}", case.describe(), evs), case.to_json());
     }
-    if j.blocked_at_delivery {
+    if j.unblocked_later {
         rep.nontrivial(&(case.level, &case.lists, &case.delivery, case.drain_each));
     }
     rep.outcome(&(case.level, &case.lists, &j.final_released));
     for s in &j.states {
         rep.state(&(case.level, &case.lists, s));
     }
-    if let Some(d) = &r.dedup_evs {
-        match d {
-            Err(e) => rep.violation("error/dedup-variant", format!("{e}; de-duplicated variant of {}", case.describe()), case.to_json()),
-            Ok(devs) => {
-                let dj = judge_events(&case.dedup(), devs);
-                if dj.final_released != j.final_released && j.violations.is_empty() && dj.violations.is_empty() {
-                    rep.violation(
-                        "repeated-entry-changes-outcome",
-                        format!(
-                            "released {:?} with the lists as given, {:?} with de-duplicated lists; {}",
-                            j.final_released,
-                            dj.final_released,
-                            case.describe()
-                        ),
-                        case.to_json(),
-                    );
-                }
-            }
-        }
-    }
+    if j.violations.is_empty() { Some(j.final_released) } else { None }
 }
 
 pub fn run(mut rep: Report) -> i32 {
     let thorough = rep.thorough();
-    rep.rule = "one case = (level, DAG on n nodes given as dependency lists that may repeat an entry or name an item that never arrives, delivery order = permutation optionally with one item delivered twice, drain policy); non-trivial = at least one delivery found its item blocked (a dependency not yet released, or never arriving), so the pending machinery was exercised".into();
+    rep.rule = "one case = (level, DAG on n nodes given as dependency lists that may repeat an entry or name an item that never arrives, delivery order = permutation optionally with one item delivered twice, drain policy); non-trivial = some item was blocked when it was first delivered (a dependency not yet ready) and became ready later, so it had to go through mark_pending / get_next_pending / process_pending".into();
 
     if let Some(path) = rep.args.replay.clone() {
         match explorer::report::load_replay(&path) {
@@ -545,63 +517,89 @@ pub fn run(mut rep: Report) -> i32 {
         return rep.finish();
     }
 
-    let parts: Vec<Part> = if thorough {
+    use Alphabet::*;
+    let p = |name, level, n_min, n_max, alpha, dups, both_drains| Part { name, level, n_min, n_max, alpha, dups, both_drains };
+    // (part, wall budget in seconds)
+    let parts: Vec<(Part, u64)> = if thorough {
         vec![
-            Part { name: "inner n<=3 rich lists, all deliveries", level: "inner", n_min: 1, n_max: 3, alpha: Alphabet::Rich, dups: true },
-            Part { name: "inner n=4 lists with appended repeats, all permutations", level: "inner", n_min: 4, n_max: 4, alpha: Alphabet::Medium, dups: false },
-            Part { name: "inner n=4 set lists, permutations + re-deliveries", level: "inner", n_min: 4, n_max: 4, alpha: Alphabet::Plain, dups: true },
-            Part { name: "processor n<=3 rich lists, all deliveries", level: "processor", n_min: 1, n_max: 3, alpha: Alphabet::Rich, dups: true },
-            Part { name: "processor n=4 set lists, all permutations", level: "processor", n_min: 4, n_max: 4, alpha: Alphabet::Plain, dups: false },
+            (p("inner n<=3, rich lists, permutations + re-deliveries, both drain policies", "inner", 1, 3, Rich, true, true), 120),
+            (p("inner n=4, lists with appended repeats, permutations, both drain policies", "inner", 4, 4, Medium, false, true), 200),
+            (p("inner n=4, set lists, permutations + re-deliveries, both drain policies", "inner", 4, 4, Plain, true, true), 100),
+            (p("processor n<=3, rich lists, permutations + re-deliveries, both drain policies", "processor", 1, 3, Rich, true, true), 120),
+            (p("processor n=4, set lists, permutations, both drain policies", "processor", 4, 4, Plain, false, true), 40),
         ]
     } else {
         vec![
-            Part { name: "inner n<=3 rich lists, all deliveries", level: "inner", n_min: 1, n_max: 3, alpha: Alphabet::Rich, dups: true },
-            Part { name: "processor n<=3 lists with appended repeats, all deliveries", level: "processor", n_min: 1, n_max: 3, alpha: Alphabet::Medium, dups: true },
+            (p("inner n<=3, lists with appended repeats, permutations + re-deliveries, both drain policies", "inner", 1, 3, Medium, true, true), 25),
+            (p("processor n<=2, rich lists, permutations + re-deliveries, both drain policies", "processor", 1, 2, Rich, true, true), 5),
+            (p("processor n=3, lists with appended repeats, permutations, drain after every delivery", "processor", 3, 3, Medium, false, false), 10),
         ]
     };
     let mut by_level: BTreeMap<&'static str, u64> = BTreeMap::new();
     let mut viol_by_level: BTreeMap<String, u64> = BTreeMap::new();
     let mut differential_pairs = 0u64;
-    for part in &parts {
+    for (part, wall) in &parts {
         let cfg = DfsCfg {
             max_dev: 0,
             max_execs: u64::MAX,
-            wall: Duration::from_secs(if thorough { 500 } else { 60 }),
+            wall: Duration::from_secs(*wall),
             threads: rep.args.threads,
         };
-        let rep_ref = &mut rep;
-        let vb = &mut viol_by_level;
-        let dp = &mut differential_pairs;
-        let st = dfs_par(
-            &cfg,
-            |ch| exec_case(&pick_case(ch, part)),
-            |_ch, r| {
-                let before = rep_ref.violation_count();
-                let _ = before;
-                if r.dedup_evs.is_some() {
-                    *dp += 1;
-                }
-                if let Ok(evs) = &r.evs {
-                    if !judge_events(&r.case, evs).violations.is_empty() {
-                        *vb.entry(r.case.level.to_string()).or_default() += 1;
+        // final released set of every violation-free case, for the differential
+        // "repeating an entry does not change the outcome"
+        let mut finals: HashMap<(Vec<Vec<u8>>, Vec<usize>, bool), BTreeSet<usize>> = HashMap::new();
+        let mut with_repeats: Vec<Case> = vec![];
+        {
+            let rep_ref = &mut rep;
+            let vb = &mut viol_by_level;
+            let finals = &mut finals;
+            let with_repeats = &mut with_repeats;
+            let st = dfs_par(
+                &cfg,
+                |ch| exec_case(&pick_case(ch, part)),
+                |_ch, r| {
+                    if rep_ref.want_sample() && r.case.n == 3 && r.case.has_repeat() && r.case.delivery.len() == 4 && r.case.lists[0].is_empty() {
+                        rep_ref.sample(json!({"case": r.case.describe(), "observed": format!("{:?}", r.evs)}));
                     }
+                    match judge(rep_ref, &r) {
+                        Some(f) => {
+                            if r.case.has_repeat() {
+                                with_repeats.push(r.case.clone());
+                            }
+                            finals.insert((r.case.lists.clone(), r.case.delivery.clone(), r.case.drain_each), f);
+                        }
+                        None => *vb.entry(r.case.level.to_string()).or_default() += 1,
+                    }
+                },
+            );
+            *by_level.entry(part.level).or_default() += st.executions;
+            rep.absorb_dfs(part.name, &st, 0);
+        }
+        // differential: every violation-free case with a repeated entry against its twin with
+        // de-duplicated lists (which is a case of the same part)
+        for c in &with_repeats {
+            let d = c.dedup();
+            let a = &finals[&(c.lists.clone(), c.delivery.clone(), c.drain_each)];
+            if let Some(b) = finals.get(&(d.lists.clone(), d.delivery.clone(), d.drain_each)) {
+                differential_pairs += 1;
+                if a != b {
+                    rep.violation(
+                        "repeated-entry-changes-outcome",
+                        format!("released {a:?} with the lists as given, {b:?} with de-duplicated lists; {}", c.describe()),
+                        c.to_json(),
+                    );
                 }
-                if rep_ref.want_sample() && r.case.n == 3 && r.case.has_repeat() && r.case.delivery.len() == 4 {
-                    rep_ref.sample(json!({"case": r.case.describe(), "observed": format!("{:?}", r.evs)}));
-                }
-                judge(rep_ref, &r);
-            },
-        );
-        *by_level.entry(part.level).or_default() += st.executions;
-        rep.absorb_dfs(part.name, &st, 0);
+            }
+        }
     }
     Ctx::drain_pool();
     rep.set("cases_per_level", json!(by_level));
     rep.set("violating_cases_per_level", json!(viol_by_level));
-    rep.set("differential_pairs_run", json!(differential_pairs));
+    rep.set("differential_pairs_compared", json!(differential_pairs));
     rep.assume("release order among siblings freed by the same item depends on std HashSet iteration order (RandomState) inside get_next_pending; the oracle only uses release sets and precedence, so the verdict does not depend on it");
     rep.assume("a second release of an item that is delivered twice (documented re-queue behaviour of mark_ready) is not counted as a violation; the property does not state exactly-once");
     rep.assume("SQLite calls are awaited to completion one after the other on a current_thread runtime; tables are emptied between cases, a new in-memory database every 512 cases");
     rep.assume("level 'processor' wraps the store in a pass-through Gate only to observe that `next` parked on an empty queue; the item type is a newtype around Operation<DepExt> because of the orphan rule");
+    rep.assume("the differential 'repeated entry vs de-duplicated list' compares violation-free cases only; a case that already violates the reference model is reported under its own key");
     rep.finish()
 }
